@@ -1,4 +1,4 @@
-use crate::debugger::address::RelocatedAddress;
+use crate::debugger::address::{GlobalAddress, RelocatedAddress};
 use crate::debugger::debugee::tracee::StopType::Interrupt;
 use crate::debugger::debugee::tracee::TraceeStatus::{Running, Stopped};
 use crate::debugger::debugee::{Debugee, Location};
@@ -123,10 +123,15 @@ impl Tracee {
     /// Get current tracee location.
     pub fn location(&self, debugee: &Debugee) -> Result<Location, Error> {
         let pc = self.pc()?;
+        // a thread may execute code that belongs to no known object (vdso, JIT-compiled code),
+        // this is still a location: an address relative to nothing is the address itself
+        let global_pc = pc
+            .into_global(debugee)
+            .unwrap_or_else(|_| GlobalAddress::from(pc.as_usize()));
         Ok(Location {
             pid: self.pid,
             pc,
-            global_pc: pc.into_global(debugee)?,
+            global_pc,
         })
     }
 }
